@@ -132,3 +132,33 @@ func vCompareStep(cpu *CPU, halt bool, bus, sb *vBus, o *vSpecOut) {
 		}
 	}
 }
+
+// Second Step on the same CPU object, on a fresh memory: after Step(X) from an
+// arbitrary state the CPU is attached to a second, entirely arbitrary bus (bank
+// switch / DMA: memory is external and may change between Steps) holding Y at
+// the new PC; the second Step must be exactly Step(Y) from the boundary state on
+// that memory.  Anything the first Step remembered about memory contents, the
+// decoded instruction or the stack frame shows as a difference.
+func VStep2(tblX, opX, tblY, opY int) {
+	var pre States
+	vHavoc(&pre, "s")
+	busA := vNewBus("bus")
+	vPlace(busA, pre.PC, tblX, opX)
+	cpu := &CPU{States: pre, Memory: busA, IO: busA}
+	cpu.Step()
+	mid, midHalt := cpu.States, cpu.HALT
+	busB := vNewBus("busB")
+	vPlace(busB, mid.PC, tblY, opY)
+	sb := busB.Fork("specB")
+	busB0 := busB.Fork("busB0")
+	cpu.Memory, cpu.IO = busB, busB
+	cpu.Step()
+	o := vSpecStep(mid, sb, tblY, opY)
+	if !o.Impl && vSpecSiliconDefined(tblY, opY) {
+		sb2 := busB0.Fork("specB2")
+		o2, _ := vSpecStepMode(mid, sb2, tblY, opY, true)
+		vAssert("unsupported", vOr(vMatchStep(cpu, midHalt, busB, sb, &o), vMatchStep(cpu, midHalt, busB, sb2, &o2)))
+		return
+	}
+	vCompareStep(cpu, midHalt, busB, sb, &o)
+}
